@@ -80,6 +80,7 @@ class Module:
 
 #: every /repo source file any Loader of this process parsed (the verified text: contract-bearing functions AND the callee code the
 #: symbolic execution runs inline - disposables, Notification, Subject, ... - re-read on every run)
+MUTATED = False  # set once this process has loaded an in-memory must-fail mutant
 ALL_FILES_READ: dict[str, str] = {}
 
 
